@@ -214,7 +214,7 @@ def k1_struct(ctx):
             if ms != rs or len(model) != len(rt) and False:
                 only_m = [x for x in ms if x not in rs]
                 only_r = [x for x in rs if x not in ms]
-                res['rows'].append({'i': i, 'feat': feat, 'dsl': texts[i], 'problem': 'generated items differ from the model',
+                res['rows'].append({'i': i, 'feat': feat, 'dsl': texts[i], 'defn': d, 'problem': 'generated items differ from the model',
                                     'only_in_model': only_m[:12], 'only_in_macro_output': only_r[:12]})
     res['n'] = len(cases) * 2
     res['distinct'] = len(set(smgen.dsl_defn(d) for d in cases))
@@ -249,7 +249,7 @@ def tie_struct(ctx, prop, rep, forest=False):
         # property fails on it is for the behavioural ties (K2/K3/K4) of the same check to show
         rep.violate('k1', 'K1 structure (correspondence Codegen.v ~ macro output no longer checks): %s (feature dynamic=%s)'
                     % (row['problem'], row['feat']),
-                    {'kind': 'k1s', 'dsl': row['dsl'], 'feature_dynamic': row['feat'],
+                    {'kind': 'k1s', 'dsl': row['dsl'], 'defn': row.get('defn'), 'feature_dynamic': row['feat'],
                      'only_in_model': row.get('only_in_model'), 'only_in_macro_output': row.get('only_in_macro_output')},
                     no_input=True)
         if n_rel >= 6:
